@@ -409,8 +409,23 @@ def run_apalache(name, tier, seed, work):
     return dict(name=name, tlc=dict(distinct=0, states=0, wall=time.time() - t0), walk=walk, meta=dict(), scale='-', walker='apalache', obligations=done)
 
 
+def run_liveness(name, tier, seed, work):
+    """Temporal properties under a fair SPECIFICATION (no VIEW, no constraint); design-level only - the transitions are
+    those of the family that E2/E3 bind to the code."""
+    fam = F.FAMILIES[name]
+    out = os.path.join(work, name + '.tlc.out')
+    res = run_tlc(fam['module'], 'SPECIFICATION %s\nPROPERTIES %s\nCHECK_DEADLOCK FALSE\n' % (fam['spec'], ' '.join(fam['temporal'])), work, out, fam['timeout'][tier], workers=8)
+    if res['violated'] or res['errors'] or res['rc'] != 0:
+        raise Undecided('TLC did not verify %s of %s: %s' % (fam['temporal'], fam['module'], res['tail'][-12:]))
+    log('[%s] TLC: %s hold under %s (%d distinct states)' % (name, fam['temporal'], fam['spec'], res['distinct']))
+    walk = dict(states=res['distinct'], edges=0, edges_ok=0, replayed=0, unreached_states=0, skipped_subtrees=0, by_type={}, mismatches=[], n_mismatch=0, samples=[], findings={}, finding_samples={})
+    return dict(name=name, tlc=res, walk=walk, meta=dict(), scale='-', walker='tlc-liveness')
+
+
 def run_family(name, tier, seed, work):
     fam = F.FAMILIES[name]
+    if fam.get('kind') == 'liveness':
+        return run_liveness(name, tier, seed, work)
     if fam.get('kind') == 'apalache':
         return run_apalache(name, tier, seed, work)
     if fam.get('kind') == 'replicas':
